@@ -60,3 +60,9 @@ Theorem c07_replies_whole_under_cancellation_and_writes :
     WInv packet is_keepalive pong s (done ++ acc) ->
     conv_ok packet is_keepalive pong done (aconv packet parse ver_of is_keepalive version m verify pong fuel c s rs ws cancels wsched acc).
 Proof. exact aconv_ok. Qed.
+
+(* the connection structs of the source have exactly the fields the models carry as state (regenerated field
+   names): receive buffer + verification flag; the tokio one also the outstanding reply and its packet *)
+Theorem c07_model_state_is_the_struct : state_tied = true.
+Proof. vm_compute. reflexivity. Qed.
+
